@@ -1,5 +1,6 @@
 """C14 -- heat-conduction solutions: structural clauses (DESIGN 3, C14)."""
 import ast
+from fractions import Fraction
 
 from ..model import AnalysisError, src_of
 from ..report import Result, Finding
@@ -346,6 +347,66 @@ def sibling_norm(model, res):
                         line=getattr(loc['Anm'].origin[1], 'lineno', 0), construct=loc['Anm'].src[:100]))
 
 
+def cylindrical_static(model, res):
+    """CylindricalSandwich: the static (non-homogeneous) part carries the boundary data -- it must take the documented
+    wall temperatures T0 at theta = 0 and T1 at theta = pi/2 (the series part vanishes on both walls: sin(k theta), k even)."""
+    import ast as _ast
+    cls = model.get_class(H + 'cylindrical_sandwich:CylindricalSandwich')
+    runm = cls.methods.get('_run')
+    if runm is None:
+        raise AnalysisError('CylindricalSandwich._run vanished')
+    b = Builder(model)
+    objn, ret = b.run_solver(cls)
+    static = theta = None
+    for func, tnode, vnode in b.assign_log:
+        if func is runm and tnode.id == 'tempnonhom' and static is None:
+            static = vnode
+        if func is runm and tnode.id == 'theta' and theta is None:
+            theta = vnode
+    if static is None or theta is None:
+        raise AnalysisError('CylindricalSandwich._run: static part `tempnonhom` / `theta` not found')
+    keys = list(model.parameters_keys(cls) or [])
+    for wall, val, want in (('theta = 0', 0, 'T0'), ('theta = pi/2', None, 'T1')):
+        ev = NFEval(keys)
+        if val == 0:
+            ev.memo[theta.nid] = ev.num(0)
+        else:
+            # pi/2 as the module writes pi: find the pi node the static part divides by
+            # substitute theta := c * (the value of the module's pi): with t a fresh symbol standing for theta,
+            # static(t) is affine in t, so the wall value is static(0) + (static(1) - static(0)) * pi/2; pi itself is whatever
+            # atom the normal form of `theta / np.pi` carries -- evaluate static at t = pi by solving static's own pi factor
+            ev0, ev1 = NFEval(keys), NFEval(keys)
+            ev0.memo[theta.nid] = ev0.num(0)
+            ev1.memo[theta.nid] = ev1.num(1)
+            s0, s1 = ev0.nf(static), ev1.nf(static)
+            if s0 is NAN or s1 is NAN:
+                raise AnalysisError('CylindricalSandwich._run: static part is not a closed form')
+            slope = ev1.add(s1, s0, -1)          # per unit theta: contains 1/pi
+            # value at theta = pi/2: s0 + slope * pi / 2 ; pi is the atom that makes slope * pi free of pi
+            if 'pi^' not in s1.key():
+                raise AnalysisError('CylindricalSandwich._run: pi not found in the static part')
+            piat = ev1.atom('pi')
+            got_half = ev1.add(s0, ev1.mul(ev1.mul(slope, piat), ev1.num(Fraction(1, 2))))
+            ev = ev1
+            ev.memo[theta.nid] = None
+        got = ev.nf(static) if val == 0 else got_half
+        h = b.heap[objn.val.oid]
+        b.frame = Frame(None, cls.module, {}, None)
+        wantn = ev.nf(b.get_attr(objn, want))
+        res.obligations += 1
+        res.evaluations += 1
+        res.nontrivial += 1
+        if got is not NAN and wantn is not NAN and ev.equal(got, wantn):
+            res.discharged += 1
+        else:
+            res.add(Finding(PROP, 'C14.series', runm.module.relpath, runm.qualname, 'cylindrical sandwich: static part at %s' % wall,
+                            "CylindricalSandwich._run: the static part `%s` takes the value %s on the wall %s, where the documented "
+                            "boundary condition is %s (the series part vanishes on both walls, so the returned temperature does not "
+                            "satisfy the boundary condition unless the other wall temperature is 0)"
+                            % (static.src[:60], got.key()[:80] if got is not NAN else 'NaN', wall, want),
+                            line=getattr(static.origin[1], 'lineno', 0), construct=static.src[:100]))
+
+
 def run(model, tier):
     res = Result(PROP)
     res.explanation = (
@@ -382,6 +443,7 @@ def run(model, tier):
     dispatch_agreement(model, res)
     ic_static_link(model, res)
     sibling_norm(model, res)
+    cylindrical_static(model, res)
     from . import c14_modes
     from ..par import run_parallel
     run_parallel([(lambda part: c14_modes.rod(model, part), ()), (lambda part: c14_modes.rectangle(model, part), ()),
